@@ -226,9 +226,49 @@ class ErrorFamily:
             out.append(V('C06', 'terminal-event', f"{tag}:{'+'.join(x[0] for x in cbs) or 'none'}", f"expected {want}, got {cbs}", scenario=sid))
         return out
 
+    def gen_retry(self, rng, idx, opts):
+        """retry pattern: the step of an act-level catch jumps back (`next:`) to the step of the failing act (or further);
+        the re-entered step is a step of the main flow again: a second error there, with another code, is taken by THAT
+        step's catch-all, whose steps run once, and the flow goes on"""
+        to = rng.choice(['SE', 'SE', 'S0'])
+        c1, c2 = rng.sample(CODES, 2)
+        second = rng.choice(['caught-by-step', 'caught-by-step', 'uncaught', 'none'])
+        se = {'id': 'SE', 'acts': [{'id': 'AE', 'uses': IRQ, 'key': 'ke', 'catches': [{'on': c1, 'steps': [{'id': 'C1', 'acts': [{'id': 'AC', 'uses': MSG, 'key': 'mc'}], 'next': to}]}]}]}
+        if second != 'uncaught':
+            se['catches'] = [{'steps': [{'id': 'CX', 'acts': [{'id': 'AX', 'uses': MSG, 'key': 'mx'}]}]}]
+        wf = {'id': 'm1', 'steps': [{'id': 'S0', 'acts': [{'id': 'a0', 'uses': IRQ, 'key': 'k'}]}, se, {'id': 'SN', 'acts': [{'id': 'an', 'uses': IRQ, 'key': 'k'}]}]}
+        rules = [{'match': {'key': 'ke'}, 'action': 'error', 'options': {'ecode': c1, 'message': 'boom'}, 'times': 1}]
+        if second != 'none':
+            rules.append({'match': {'key': 'ke'}, 'action': 'error', 'options': {'ecode': c2, 'message': 'again'}, 'times': 1})
+        rules.append({'match': {'uses': IRQ}, 'action': 'next', 'times': 1000})
+        rt = rng.choice([{'flavor': 'current'}, {'flavor': 'current', 'chaos': {'max_yields': 3, 'seed': rng.randrange(1, 1 << 40)}}, {'flavor': 'multi', 'workers': 2, 'chaos': {'max_yields': 3, 'seed': rng.randrange(1, 1 << 40)}}])
+        sc = {'id': '', 'family': 'error', 'sched': rt['flavor'] + '-retry', 'seed': rng.randrange(1 << 30), 'runtime': rt, 'engine': {'store': opts.get('store', 'mem'), 'keep_processes': True}, 'models': [json.dumps(wf)],
+              'responder': {'mode': 'quiescent', 'order': 'fifo', 'rules': rules}, 'ops': [{'op': 'start', 'mid': 'm1', 'vars': {'pid': 'p1'}}, {'op': 'run', 'snap': opts.get('snap', 'live')}, {'op': 'snapshot', 'level': opts.get('snap', 'live')}]}
+        return {'scenarios': [sc], 'meta': {'wf': wf, 'code': c1, 'source': 'retry', 'retry': {'to': to, 'c1': c1, 'c2': c2, 'second': second}}, 'digest': digest([wf, c1, c2, second]), 'nontrivial': True}
+
+    def judge_retry(self, c, opts, obs):
+        out = []
+        h, sc, m = c['hist'][0], c['scenarios'][0], c['meta']
+        r, sid = m['retry'], sc['id']
+        tag = f"retry-to-{r['to']}:{r['second']}"
+        obs[f'c06.runs:{tag}'] += 1
+        cnt = collections.Counter(e['nid'] for e in h.creates)
+        if cnt['C1'] != 1:
+            out.append(V('C06', 'wrong-catch-ran', f"act-catch:{cnt['C1']}:{tag}", f"the step of the act's catch for {r['c1']} ran {cnt['C1']} times", scenario=sid))
+        want_cx = 1 if r['second'] == 'caught-by-step' else 0
+        if cnt['CX'] != want_cx:
+            out.append(V('C06', 'wrong-catch-ran', f"step-catch-all:{cnt['CX']}:{tag}", f"the step of the re-entered step's catch-all ran {cnt['CX']} times, expected {want_cx} (second error {r['c2']!r}: {r['second']})", scenario=sid))
+        cbs = [(e['what'], e['state'], (e.get('inputs') or {}).get('ecode')) for e in h.cbs if e['what'] != 'start']
+        want = [('error', 'error', r['c2'])] if r['second'] == 'uncaught' else [('complete', 'completed', None)]
+        if cbs != want:
+            out.append(V('C06', 'terminal-event', f"{tag}:{'+'.join(x[0] for x in cbs) or 'none'}", f"expected {want}, got {cbs}", scenario=sid))
+        return out
+
     def gen(self, rng, idx, opts):
         if rng.random() < opts.get('nested', 0.15):
             return self.gen_nested(rng, idx, opts)
+        if rng.random() < opts.get('retry', 0.08):
+            return self.gen_retry(rng, idx, opts)
         source = rng.choice(['action', 'action', 'action', 'script', 'params', 'unknown'])
         g = G(rng)
         wf = g.wf(source)
@@ -240,7 +280,17 @@ class ErrorFamily:
             # a second error with another code raised on an act inside the catch steps (C02: only one revival)
             other = rng.choice([x for x in CODES if x != code])
             rules.insert(1, {'match': {'key': 'kc'}, 'action': 'error', 'options': {'ecode': other, 'message': 'again'}, 'times': 1})
-        sc = {'id': '', 'family': 'error', 'sched': rt['flavor'] + '-' + order, 'seed': rng.randrange(1 << 30), 'runtime': rt, 'engine': {'store': opts.get('store', 'mem'), 'keep_processes': True}, 'models': [json.dumps(wf)],
+        idless = rng.random() < opts.get('idless', 0.2)
+        wf_engine = wf
+        if idless:
+            # the steps of the catches carry no ids (the engine names them); their acts keep theirs, which is what the
+            # judge follows
+            wf_engine = json.loads(json.dumps(wf))
+            from monitors import walk_nodes
+            for n_, kind_, where_ in walk_nodes(wf_engine):
+                if kind_ == 'step' and where_ == 'catch':
+                    n_.pop('id', None)
+        sc = {'id': '', 'family': 'error', 'sched': rt['flavor'] + '-' + order + ('-idless' if idless else ''), 'seed': rng.randrange(1 << 30), 'runtime': rt, 'engine': {'store': opts.get('store', 'mem'), 'keep_processes': True}, 'models': [json.dumps(wf_engine)],
               'responder': {'mode': 'quiescent', 'order': order, 'rules': rules}, 'ops': [{'op': 'start', 'mid': 'm1', 'vars': {'pid': 'p1'}}, {'op': 'run', 'snap': opts.get('snap', 'live')}, {'op': 'snapshot', 'level': opts.get('snap', 'live')}]}
         if opts.get('store') == 'sqlite' and rng.random() < opts.get('restart', 0.0):
             sc['faults'] = {'restart_at': sorted(set(rng.randint(1, 5) for _ in range(rng.randint(1, 2))))}
@@ -249,13 +299,15 @@ class ErrorFamily:
         elif rng.random() < opts.get('evict', 0.3):
             sc['faults'] = {'evict_at': sorted(set(rng.randint(1, 6) for _ in range(rng.randint(1, 2))))}
             sc['sched'] += '+evict'
-        return {'scenarios': [sc], 'meta': {'wf': wf, 'code': code, 'source': source}, 'digest': digest([wf, code]), 'nontrivial': True}
+        return {'scenarios': [sc], 'meta': {'wf': wf, 'code': code, 'source': source, 'idless': idless}, 'digest': digest([wf, code, idless]), 'nontrivial': True}
 
     def judge(self, c, opts, obs):
         out = []
         h, sc, m = c['hist'][0], c['scenarios'][0], c['meta']
         if m.get('nested'):
             return self.judge_nested(c, opts, obs)
+        if m.get('retry'):
+            return self.judge_retry(c, opts, obs)
         wf, code, source = m['wf'], m['code'], m['source']
         sid = sc['id']
         if source != 'action':
@@ -281,9 +333,25 @@ class ErrorFamily:
             got.setdefault(t['nid'], t['state'])
         allc = all_catch_steps(wf)
         cnt = collections.Counter(e['nid'] for e in h.creates)
+        tag = f'{source}:{catcher or "uncaught"}'
+        if m.get('idless'):
+            # the catch steps are anonymous: follow their acts
+            from monitors import walk_nodes
+            acts_of = {}
+            for n_, kind_, where_ in walk_nodes(wf):
+                if kind_ == 'step' and where_ == 'catch':
+                    acts_of[n_['id']] = [a['id'] for a in n_.get('acts') or []]
+            want_acts = sorted(a for s_ in ran for a in acts_of.get(s_, []))
+            got_acts = sorted(a for s_ in allc for a in acts_of.get(s_, []) for _ in range(cnt[a]))
+            obs['c06.idless-catch-programs'] += 1
+            if want_acts != got_acts:
+                out.append(V('C06', 'wrong-catch-ran', f"idless:{'missing' if len(got_acts) < len(want_acts) else 'extra'}:{tag}", f"acts of the (id-less) catch steps that ran {got_acts}, expected {want_acts} for code {code!r} (catcher {catcher})", scenario=sid))
+            for s_ in allc:
+                exp.pop(s_, None)
+            allc = set()
+            ran = set()
         got_ran = {x for x in allc if cnt[x] > 0}
         dup = sorted(x for x in allc if cnt[x] > 1)
-        tag = f'{source}:{catcher or "uncaught"}'
         if dup:
             out.append(V('C06', 'catch-steps-ran-twice', tag, f"catch steps {dup} were instantiated more than once (code {code})", scenario=sid))
         if got_ran != ran:
